@@ -187,9 +187,9 @@ CHECKS["C05"] = dict(
         dict(pkg="pkg/twcc", entry="HC05Recorder", params=dict(records=3, span=2, steptab=1), require_covers=["feedback built", "build split into several packets", "aged out of the history", "duplicate ignored"]),
         dict(pkg="pkg/twcc", entry="HC05Recorder", params=dict(records=3, span=3), require_covers=["feedback built", "duplicate ignored"], thorough=dict(params=dict(records=4, span=2), flags=["-maxpaths", "3000000"], timeout=3400)),
     ],
-    bounds=dict(quick="chunk packer: ANY sequence of 16 status symbols (0/1/2), emitted chunks decode to the driven sequence and are well formed; feedback packer: 3 received packets with gaps of 0 or 2 lost in between, arrival steps case-split over a table of boundary values (0, 125 us rounding, 255.5-unit small/large border, 64 ms, negative, beyond the int16 limit: must be refused; thorough adds 124 us, the int16 limits both ways, 12 s), 3 reference times, symbolic base sequence number (wrap) -> independent decode within 125 us, one delta per received status, real rtcp Marshal/Unmarshal round trip and declared length; recorder: 3 records (offsets 0..3 from 2 bases incl. wrap, duplicates, reordering, 4 arrival steps up to 70 ms) with a build after a case-split prefix and at the end; sender interceptor: 5 reads on a TWCC-negotiated stream, each with the extension / without it / failing (case split, 2 bases incl. wrap), harness-fired tick: one feedback covering base..highest with exactly the read packets marked received; a second tick writes nothing",
+    bounds=dict(quick="chunk packer: ANY sequence of 16 status symbols (0/1/2), emitted chunks decode to the driven sequence and are well formed; feedback packer: 3 received packets with gaps of 0 or 2 lost in between, arrival steps case-split over a table of boundary values (0, 125 us rounding, 255.5-unit small/large border, 64 ms, negative, beyond the int16 limit: must be refused; thorough adds 124 us, the int16 limits both ways, 12 s), 3 reference times, symbolic base sequence number (wrap) -> independent decode within 125 us, one delta per received status, real rtcp Marshal/Unmarshal round trip and declared length; recorder: 3 records (offsets 0..3 from 2 bases incl. wrap, duplicates, reordering, 4 arrival steps up to 70 ms) with a build after a case-split prefix and at the end; the same with 9 s gaps between arrivals (offsets 0..2): a build splits into several packets with consecutive counters and non-overlapping ranges, arrivals older than 500 ms that were already reported may be forgotten and re-recorded; sender interceptor: 5 reads on a TWCC-negotiated stream, each with the extension / without it / failing (case split, 2 bases incl. wrap), harness-fired tick: one feedback covering base..highest with exactly the read packets marked received; a second tick writes nothing",
                 thorough="24 symbols; 4 packer steps; 4 records"),
-    outside=["arrival-time values other than the tabled boundary values (the 64-bit divide/multiply chain by 250 and 64000 does not finish symbolically: unknown at 60 s in z3 and cvc5; cvc5 --solve-bv-as-int=sum decides single steps only)", "gaps longer than 2 / sequence jumps beyond 4", "the 500 ms culling rule (steps stay below it)", "first sequence number below the reordering distance (unwrapper corner)", "sender interceptor beyond 5 reads and two ticks (deterministic clock)"],
+    outside=["arrival-time values other than the tabled boundary values (the 64-bit divide/multiply chain by 250 and 64000 does not finish symbolically: unknown at 60 s in z3 and cvc5; cvc5 --solve-bv-as-int=sum decides single steps only)", "gaps longer than 2 / sequence jumps beyond 4", "the 500 ms culling rule beyond the tabled 9 s gaps (the oracle over-approximates which arrivals may have been forgotten: reported earlier and followed, at least 500 ms later, by a higher number)", "first sequence number below the reordering distance (unwrapper corner)", "sender interceptor beyond 5 reads and two ticks (deterministic clock)"],
     assumptions=["case splits over the tables are exhaustive per table; each path's arithmetic is concrete, the solver decides the sequence-number arithmetic (symbolic base) and all slice/index checks"],
 )
 
